@@ -542,7 +542,8 @@ def _relabelled(run, rng, thorough):
         kinds = list(gen.UNIMODULAR)
     elif rng.random() < 0.5:
         kinds.append(rng.choice(list(gen.UNIMODULAR)))
-    names = ["cscl", "nacl_prim", "hcp", "bct", "mono_P", "triclinic", "rhombo", "zincblende_prim"]
+    # mostly non-orthogonal bases with a non-trivial point group: there a wrong convention (R vs R^T, handedness) shows
+    names = ["hcp", "rhombo", "nacl_prim", "zincblende_prim", "hcp", "rhombo", "mono_P", "bct", "cscl", "wurtzite"]
     for kind in kinds:
         name = rng.choice(names)
         cell, cen = U.make_cell(name)
